@@ -408,7 +408,17 @@ func (st *ex6State) handler(sv *ex6Server) server6.Handler {
 			var rep *dhcpv6.Message
 			inf := time.Duration(0xffffffff) * time.Second // "infinity" on the wire
 			ia := &dhcpv6.OptIANA{IaId: [4]byte{0xaa, 0xbb, 0x00, 0x01}, T1: time.Hour, T2: 2 * time.Hour}
-			addr := &dhcpv6.OptIAAddress{IPv6Addr: net.ParseIP(fmt.Sprintf("2001:db8:%d::%d", sv.id, 1+t.Choose(9))), PreferredLifetime: time.Hour, ValidLifetime: 2 * time.Hour}
+			ip := net.ParseIP(fmt.Sprintf("2001:db8:%d::%d", sv.id, 1+t.Choose(9)))
+			switch t.Weighted(10, 1, 1, 1) {
+			case 1:
+				ip = net.ParseIP(fmt.Sprintf("::ffff:192.0.2.%d", 1+t.Choose(9))) // an IPv4-mapped address: 16 bytes on the wire like any other
+				s.Fault("reply-ipv4-mapped-address")
+			case 2:
+				ip = net.ParseIP(fmt.Sprintf("fd00::%d:%d", sv.id, 1+t.Choose(9)))
+			case 3:
+				ip = net.IPv6unspecified
+			}
+			addr := &dhcpv6.OptIAAddress{IPv6Addr: ip, PreferredLifetime: time.Hour, ValidLifetime: 2 * time.Hour}
 			switch t.Weighted(6, 1, 1) {
 			case 1:
 				ia.T1, ia.T2 = inf, inf
